@@ -1031,6 +1031,8 @@ class AffInterp:
                 return v
             f = self.p.resolve(o.cls, a)
             if f is not None:
+                if f.is_property:
+                    return self.call(f, [o], {})
                 return f if f.is_static else BoundMethod(o, f)
             if a == "__class__":
                 return Opaque("class")
